@@ -39,6 +39,7 @@ except ImportError:  # pragma: no cover
 
 import paramiko
 from paramiko.message import Message
+from paramiko.packet import NeedRekeyException
 
 from vf import tap as vtap
 
@@ -168,6 +169,7 @@ class MemSock:
         self.hiccup = None
         self._hic_last = False
         self.hiccups = 0
+        self.recv_timeouts_at = []  # stream offsets at which recv raised socket.timeout / EAGAIN
 
     def _maybe_hiccup(self, kind):
         if self.hiccup is None or self._hic_last:
@@ -209,7 +211,11 @@ class MemSock:
         if avail <= 0 or n <= 0:
             self.eofs += 1
             return b""
-        self._maybe_hiccup("recv")
+        try:
+            self._maybe_hiccup("recv")
+        except OSError:
+            self.recv_timeouts_at.append(self.pos)
+            raise
         k = min(n, avail)
         if self.cuts is not None:
             cuts = self.cuts
@@ -341,8 +347,10 @@ def rand_secret(rng):
 class Receiver:
     """A never-started Transport acting as the receiving peer."""
 
-    def __init__(self, spec, recorder=None, klog=None, packetizer_class=None):
+    def __init__(self, spec, recorder=None, klog=None, packetizer_class=None, rekey_packets=None, rekey_bytes=None):
         self.spec = spec
+        self.needrekey_seen = 0
+        self.split_headers_rekey_pending = 0
         self.sock = MemSock()
         self.rec = recorder
         pc = packetizer_class
@@ -358,6 +366,12 @@ class Receiver:
         self.klog = klog
         if klog is not None:
             instrument(t, klog, "rx")
+        # scaled re-key thresholds (instance attributes, as C10 does): the receiver's own
+        # need_rekey() flag goes up after a few packets and stays up (its outbound side never re-keys)
+        if rekey_packets is not None:
+            t.packetizer.REKEY_PACKETS = rekey_packets
+        if rekey_bytes is not None:
+            t.packetizer.REKEY_BYTES = rekey_bytes
         self.next_epoch = 0
         self.delivered = []
         self.iv_steps = []  # (before, after) of the AEAD counter per decoded packet
@@ -404,13 +418,29 @@ class Receiver:
                 return self.outcome
         self.sock.hiccup = hiccup
         aead_track = True
+        stall = 0
         while True:
             if limit is not None and len(self.delivered) >= limit:
                 self.outcome = ("limit", None)
                 break
             iv0 = vtap.pz(pk, "iv_in") if aead_track else None
+            pos0, nto, pending = self.sock.pos, len(self.sock.recv_timeouts_at), pk.need_rekey()
+            hdr = vtap.pz(pk, "block_size_in")
             try:
-                ptype, m = pk.read_message()
+                try:
+                    ptype, m = pk.read_message()
+                finally:
+                    if pending and any(pos0 < q < pos0 + hdr for q in self.sock.recv_timeouts_at[nto:]):
+                        # a timeout fell between two pieces of a packet header while a re-key was pending
+                        self.split_headers_rekey_pending += 1
+            except NeedRekeyException:
+                # what Transport.run does: just read again
+                self.needrekey_seen += 1
+                stall = stall + 1 if self.sock.pos == pos0 else 0
+                if stall > 1000:
+                    self.outcome = ("stop", BenchProtocolError("NeedRekeyException without progress"))
+                    break
+                continue
             except EOFError:
                 self.outcome = ("eof", None)
                 break
@@ -518,8 +548,9 @@ class Bench:
         """Start offset of every packet plus the end of the stream."""
         return [s["start"] for s in self.sent] + [len(self.sock.wire)]
 
-    def receiver(self, recorder=None, klog=None, packetizer_class=None):
-        return Receiver(self.spec, recorder=recorder, klog=klog, packetizer_class=packetizer_class)
+    def receiver(self, recorder=None, klog=None, packetizer_class=None, rekey_packets=None, rekey_bytes=None):
+        return Receiver(self.spec, recorder=recorder, klog=klog, packetizer_class=packetizer_class,
+                        rekey_packets=rekey_packets, rekey_bytes=rekey_bytes)
 
     def installed_out(self):
         """Per key epoch, what the sender really installed for its outbound
